@@ -30,3 +30,10 @@ package ioutils
 //@ mode effects
 //@ effect[C36:hook-only-on-first-close] every r.onClose() where !old(specSeekHookDone(r))
 //@ ensures[C36:close-marks-reader] r.onClose != nil ==> specSeekHookDone(r)
+
+// C05. Skipping n bytes moves a seekable reader n bytes on from where it stands (part readers are handed out positioned
+// past their headers, so the start of the underlying file is not the start of the part); it never repositions absolutely.
+//@ func SkipNBytes
+//@ mode effects
+//@ effect[C05:skip-is-relative-to-the-current-position] every io.Seeker($s).Seek($off, $wh) where $off == n && $wh == io.SeekCurrent
+//@ effect[C05:unseekable-readers-are-read-past] every CopyN(_, $rd, $k) where $k == n && $rd == r
